@@ -148,7 +148,17 @@ func GenRace(r *core.Rand, rc *RaceCfg) *Race {
 	if r.Chance(1, 10) {
 		addr = 1 + uint64(r.Intn(1000))
 	}
+	// overlapping accesses of different size or offset print different addresses in one report
+	mixed := r.Chance(1, 2)
 	for i := 0; i < nops; i++ {
+		if mixed && i > 0 {
+			switch r.Intn(3) {
+			case 0:
+				addr += uint64(1 + r.Intn(7))
+			case 1:
+				addr = 0xc000000000 + uint64(r.Intn(1<<24))*8
+			}
+		}
 		out.Ops = append(out.Ops, RaceOp{Write: r.Bool(), Addr: addr, GID: GenID(r, used), Frames: genRaceFrames(r, cfg, 1+r.Intn(rc.MaxFrames), out.WithArgs)})
 	}
 	order := r.Perm(nops)
